@@ -19,13 +19,17 @@ package fsnotify
 //@        ite(mask & unix.IN_CLOSE_NOWRITE != 0, xUnportableCloseRead, 0)
 
 // ---- rename correlation (C11)
+// seenFrom/lastFrom record the move-outs handled so far (cookie -> old name);
+// dupCookie becomes true if the kernel ever used one cookie for two move-outs
+// (inotify(7) promises it does not: that assumption is "dupCookie stays false").
 //@ ghost seenFrom set[uint32]
 //@ ghost lastFrom map[uint32]string
+//@ ghost dupCookie bool
 //@ def firstMatch(c [10]koekje, x uint32) := ite(c[0].cookie == x, c[0].path, ite(c[1].cookie == x, c[1].path, ite(c[2].cookie == x, c[2].path,
 //@        ite(c[3].cookie == x, c[3].path, ite(c[4].cookie == x, c[4].path, ite(c[5].cookie == x, c[5].path, ite(c[6].cookie == x, c[6].path,
 //@        ite(c[7].cookie == x, c[7].path, ite(c[8].cookie == x, c[8].path, ite(c[9].cookie == x, c[9].path, ""))))))))))
 //@ pred RingInv(w *inotify) := w.cookieIndex < 10 &&
-//@        forall(s, uint8, s < 10 && w.cookies[s].cookie != 0 ==> has(seenFrom, w.cookies[s].cookie) && w.cookies[s].path == lastFrom[w.cookies[s].cookie])
+//@        (!dupCookie ==> forall(s, uint8, s < 10 && w.cookies[s].cookie != 0 ==> has(seenFrom, w.cookies[s].cookie) && w.cookies[s].path == lastFrom[w.cookies[s].cookie]))
 
 //@ owned inotify.cookiesMu: inotify.cookies, inotify.cookieIndex
 //@ confined reader: inotify.cookies, inotify.cookieIndex
@@ -33,12 +37,13 @@ package fsnotify
 //@ func (w *inotify) newEvent(name string, mask uint32, cookie uint32) (e Event)
 //@   requires token(reader) && !held(inotify.cookiesMu)
 //@   requires RingInv(w)
-//@   requires cookie != 0 && mask & unix.IN_MOVED_FROM != 0 ==> !has(seenFrom, cookie)      [C11] "kernel: a rename cookie is used by one move only"
+//@   effect   dupCookie = old(dupCookie) || (cookie != 0 && mask & unix.IN_MOVED_FROM != 0 && has(old(seenFrom), cookie))
 //@   effect   seenFrom = ite(cookie != 0 && mask & unix.IN_MOVED_FROM != 0, setAdd(old(seenFrom), cookie), old(seenFrom))
 //@   effect   lastFrom = ite(cookie != 0 && mask & unix.IN_MOVED_FROM != 0, set(old(lastFrom), cookie, name), old(lastFrom))
 //@   ensures  e.Name == name                                                                [C01 C02 C08] "the event carries the name it was built for"
 //@   ensures  e.Op == specOpInotify(mask)                                                   [C15 C01 C02] "native flags map to the documented operations; a combination yields the union"
 //@   ensures  RingInv(w)                                                                    [C11 C07]
+//@   ensures  old(dupCookie) ==> dupCookie
 //@   ensures  cookie != 0 && mask & unix.IN_MOVED_FROM != 0 ==> e.renamedFrom == "" &&
 //@              w.cookies[old(w.cookieIndex)] == koekje{cookie, name} &&
 //@              forall(s, uint8, s < 10 && s != old(w.cookieIndex) ==> w.cookies[s] == old(w.cookies[s])) &&
@@ -47,10 +52,10 @@ package fsnotify
 //@   ensures  cookie != 0 && mask & unix.IN_MOVED_FROM == 0 && mask & unix.IN_MOVED_TO != 0 ==>
 //@              e.renamedFrom == firstMatch(old(w.cookies), cookie)                         [C11] "a move-in looks its cookie up in the ring"
 //@   ensures  cookie != 0 && mask & unix.IN_MOVED_FROM == 0 && mask & unix.IN_MOVED_TO != 0 ==>
-//@              e.renamedFrom == "" || e.renamedFrom == lastFrom[cookie]                    [C11] "the old name is the one of the Rename event produced by the same move, or none"
+//@              dupCookie || e.renamedFrom == "" || e.renamedFrom == lastFrom[cookie]       [C11] "the old name is the one of the Rename event produced by the same move, or none"
 //@   ensures  cookie == 0 || mask & (unix.IN_MOVED_FROM | unix.IN_MOVED_TO) == 0 ==> e.renamedFrom == ""     [C11] "a Create that did not result from a move never carries an old name"
 //@   ensures  !(cookie != 0 && mask & unix.IN_MOVED_FROM != 0) ==>
-//@              w.cookies == old(w.cookies) && w.cookieIndex == old(w.cookieIndex) && seenFrom == old(seenFrom) && lastFrom == old(lastFrom)    [C11] "anything else leaves the ring alone"
+//@              w.cookies == old(w.cookies) && w.cookieIndex == old(w.cookieIndex) && seenFrom == old(seenFrom) && lastFrom == old(lastFrom) && dupCookie == old(dupCookie)    [C11] "anything else leaves the ring alone"
 //@   ensures  !held(inotify.cookiesMu)                                                      [C05 C07]
 
 // ---- ownership and roles (C07): the two tables and every watch object they
@@ -69,7 +74,8 @@ package fsnotify
 //@        forall(p, string, has(ws.path, p) ==> has(ws.wd, ws.path[p]) && ws.wd[ws.path[p]].path == p && filepath.Clean(p) == p) &&
 //@        forall(k, uint32, has(ws.wd, k) ==> ws.wd[k] != nil && allocated(ws.wd[k]) && ws.wd[k].wd == k && has(ws.path, ws.wd[k].path) && ws.path[ws.wd[k].path] == k && 1 <= k && k < 0x80000000) &&
 //@        (!enableRecurse ==> forall(k, uint32, has(ws.wd, k) ==> !ws.wd[k].recurse))
-//@ pred KInv(ws *watches) := forall(k, uint32, has(K, k) ==> has(ws.wd, k)) && forall(k, uint32, has(ws.wd, k) ==> has(K, k) || has(Pending, k))
+//@ pred KInv(ws *watches) := forall(k, uint32, has(K, k) ==> has(ws.wd, k)) && forall(k, uint32, has(ws.wd, k) ==> has(K, k) || has(Pending, k)) &&
+//@        forall(k, uint32, !(has(K, k) && has(Pending, k)))
 //@ lockinv shared.mu (w *inotify) := TablesInv(w.watches)          [C04 C07 C12] "the two tables describe the same set of watches"
 //@   invariant KInv(w.watches)                                     [C12] "kernel watches and table entries are in step"
 
@@ -88,6 +94,7 @@ package fsnotify
 //@   requires held(shared.mu) && !held(inotify.cookiesMu) && Wf(w) && TablesInv(w.watches)
 //@   requires forall(k, uint32, has(w.watches.wd, k) ==> has(K, k) || has(Pending, k))
 //@   requires forall(k, uint32, has(K, k) ==> has(w.watches.wd, k))
+//@   requires forall(k, uint32, !(has(K, k) && has(Pending, k)))
 //@   let p = filepath.Clean(name)
 //@   let P0 = old(w.watches.path)
 //@   let W0 = old(w.watches.wd)
@@ -99,11 +106,13 @@ package fsnotify
 //@   ensures has(P0, p) && err == nil ==> !has(K, P0[p])                                          [C12] "the kernel watch of a removed entry is released"
 //@   ensures has(P0, p) ==> err == nil || closed(w.done)                                          [C04 C10] "removing a listed path only fails on a closed watcher"
 //@   ensures held(shared.mu)
+//@   ensures subset(old(Pending), Pending) && forall(k, uint32, !(has(K, k) && has(Pending, k)))
 //@   loop 1 "for _, wd := range wds"
 //@     invariant held(shared.mu) && TablesInv(w.watches) && loopIdx <= len(wds) && (modeA ==> len(wds) == 1)
 //@     invariant forall(k, uint32, has(w.watches.wd, k) ==> has(K, k) || has(Pending, k))
 //@     invariant forall(k, uint32, has(K, k) ==> has(w.watches.wd, k) || exists(j, int, loopIdx <= j && j < len(wds) && wds[j] == k))
 //@     invariant forall(j, int, 0 <= j && j < loopIdx ==> !has(K, wds[j]))
+//@     invariant subset(old(Pending), Pending) && forall(k, uint32, !(has(K, k) && has(Pending, k)))
 
 // register (with updatePath and the closure inlined). k is the kernel's answer
 // (ghost lastWd, set by the assumed contract of inotify_add_watch).
@@ -179,3 +188,92 @@ package fsnotify
 //@     invariant forall(i, int, 0 <= i && i < len(entries) ==> has(visited, entries[i]) && has(w.watches.path, entries[i]))
 //@     invariant forall(p, string, has(visited, p) ==> exists(i, int, 0 <= i && i < len(entries) && entries[i] == p))
 //@     invariant forall(i, int, forall(j, int, 0 <= i && i < j && j < len(entries) ==> entries[i] != entries[j]))
+
+// ---- the reader goroutine (C01 C02 C03 C08 C09 C10 C11 C12)
+// kparentWatched(wd): the directory that really contained the file watched as
+// wd is itself watched by this Watcher (so its IN_DELETE reports the removal).
+//@ fun kparentWatched(wd uint32) bool
+
+//@ func (w *inotify) handleEvent(inEvent *unix.InotifyEvent, buf *[65536]byte, offset uint32) (ev Event, ok bool)
+//@   mode modeA: !enableRecurse
+//@   requires token(reader) && nolocks() && Wf(w) && RingInv(w) && inEvent != nil && buf != nil
+//@   requires !closed(w.Errors) && !closed(w.Events)
+//@   requires offset <= 65536 - 16 && inEvent.Len <= 4096 && inEvent.Len <= 65536 - 16 - offset                      [C08] "kernel: the record lies inside the read buffer"
+//@   requires inEvent.Mask & (unix.IN_IGNORED | unix.IN_UNMOUNT | unix.IN_DELETE_SELF) != 0 ==> has(Pending, uint32(inEvent.Wd))   [C12] "kernel: such a record refers to a watch that is gone for good"
+//@   let wd = uint32(inEvent.Wd)
+//@   let mask = inEvent.Mask
+//@   let W1 = atLock(w.watches.wd)
+//@   let P1 = atLock(w.watches.path)
+//@   let live = has(W1, wd)
+//@   let wpath = atLock(w.watches.wd[uint32(inEvent.Wd)].path)
+//@   let nm = ite(inEvent.Len == 0, wpath, wpath + "/" + strings.TrimRight(bytes2str(*buf, uint64(offset + 16), uint64(inEvent.Len)), "\x00"))
+//@   let gone = unix.IN_IGNORED | unix.IN_UNMOUNT | unix.IN_DELETE_SELF | unix.IN_MOVE_SELF
+//@   ensures nolocks()                                                                                    [C05 C07]
+//@   ensures !ok ==> closed(w.done)                                                                       [C01 C13] "the reader only gives up on a closed watcher"
+//@   ensures !live ==> ok && ev.Op == 0 && atUnlock(w.watches.wd) == W1 && atUnlock(w.watches.path) == P1 [C02 C07] "a notification whose watch is gone (Remove raced) is skipped"
+//@   ensures mask & (unix.IN_IGNORED | unix.IN_UNMOUNT) != 0 ==> ev.Op == 0                               [C02] "kernel housekeeping notifications never surface"
+//@   ensures ev.Op != 0 ==> live && ev.Op == specOpInotify(mask)                                          [C02 C15] "an event is only reported for a watch in the table, with the documented operations"
+//@   ensures ev.Op != 0 ==> ev.Name == nm                                                                 [C02 C08] "named by the watch path as added, a separator and the kernel's entry name without padding"
+//@   ensures modeA && live && ok && mask & (unix.IN_IGNORED | unix.IN_UNMOUNT) == 0 &&
+//@             !(mask & unix.IN_DELETE_SELF != 0 && has(P1, filepath.Dir(wpath))) ==> ev.Op == specOpInotify(mask) && ev.Name == nm   [C01 C08] "every other notification for a live watch is translated, not dropped"
+//@   ensures modeA && live && ok && mask & (unix.IN_IGNORED | unix.IN_UNMOUNT) == 0 && mask & unix.IN_DELETE_SELF != 0 && ev.Op == 0 ==>
+//@             kparentWatched(wd)                                                                         [C01 C09] "a suppressed IN_DELETE_SELF is one the watched parent directory reports"
+//@   ensures modeA && live && mask & gone == 0 ==> atUnlock(w.watches.wd) == W1 && atUnlock(w.watches.path) == P1     [C09 C04] "other notifications (e.g. the IN_ATTRIB of an unlink with an open descriptor) keep the watch"
+//@   ensures modeA && live && mask & gone != 0 ==> atUnlock(w.watches.wd) == del(W1, wd) && atUnlock(w.watches.path) == del(P1, wpath)   [C09 C12 C04] "a watch whose path is deleted or renamed leaves both tables"
+//@   ensures modeA && live && mask & gone != 0 ==> !has(K, wd) || closed(w.done)                          [C09 C12] "and its kernel watch is gone"
+//@   ensures hist(w.Errors) == old(hist(w.Errors)) || closed(w.done)                                      [C10] "handling a notification puts nothing on Errors"
+//@   ensures hist(w.Events) == old(hist(w.Events))                                                        [C03] "handleEvent itself sends no event"
+//@   ensures !closed(w.Errors) && !closed(w.Events) && token(reader) && RingInv(w)
+//@   ensures ev.renamedFrom != "" ==> inEvent.Cookie != 0 && mask & unix.IN_MOVED_TO != 0 && mask & unix.IN_MOVED_FROM == 0 &&
+//@             (dupCookie || ev.renamedFrom == old(lastFrom)[inEvent.Cookie]) && ev.renamedFrom == firstMatch(old(w.cookies), inEvent.Cookie)        [C11] "an old name is only attached to a move-in and is the name stored for its cookie"
+//@   ensures live && ok && inEvent.Cookie != 0 && mask & unix.IN_MOVED_FROM != 0 && ev.Op != 0 ==> lastFrom[inEvent.Cookie] == ev.Name   [C11] "the name of the Rename event is what a later move-in with this cookie will carry"
+//@   ensures old(dupCookie) ==> dupCookie
+//@   ensures subset(old(Pending), Pending)                                                            [C12]
+
+//@ func (w *inotify) readEvents()
+//@   thread
+//@   consumes reader
+//@   mode modeA: !enableRecurse
+//@   requires token(reader) && nolocks() && Wf(w) && RingInv(w)
+//@   requires !closed(w.Events) && !closed(w.Errors) && !closed(w.doneResp)
+//@   ensures closed(w.Events) && closed(w.Errors) && closed(w.doneResp)                   [C06 C13] "the reader closes both channels when it exits"
+//@   ensures nolocks()                                                                    [C05]
+//@   ghostvar k Int = 0
+//@   ghostvar hs hist
+//@   ghostvar he hist
+//@   ghostvar p0 set[uint32]
+//@   loop 1 "for"
+//@     invariant token(reader) && nolocks() && Wf(w) && RingInv(w) && !closed(w.Events) && !closed(w.Errors) && !closed(w.doneResp)    [C05 C06]
+//@   loop 2 "for offset <= uint32(n-unix.SizeofInotifyEvent)"
+//@     init k = 0
+//@     init hs = hist(w.Events)
+//@     init he = hist(w.Errors)
+//@     init p0 = Pending
+//@     invariant token(reader) && nolocks() && Wf(w) && RingInv(w) && !closed(w.Events) && !closed(w.Errors) && !closed(w.doneResp)    [C05 C06]
+//@     invariant 0 <= k && k <= recN && offset == recOff[k]                               [C01 C03 C08] "the cursor is at the start of record k"
+//@     invariant hist(w.Events) == hs                                                     [C01 C03] "exactly the translated records so far, in order"
+//@     invariant hist(w.Errors) == he || closed(w.done)                                   [C01 C10] "Errors holds exactly the overflow announcements so far"
+//@     invariant subset(p0, Pending)                                                      [C12] "a watch the kernel reported gone stays gone"
+//@     step hs = ite(ev.Op != 0, snoc(hs, ev), hs)
+//@     step he = ite(inEvent.Mask & unix.IN_Q_OVERFLOW != 0, snoc(he, ErrEventOverflow), he)
+//@     step k = k + 1
+//@     decreases recN - k                                                                 [C13] "the decode loop terminates"
+//@     exit k == recN                                                                     [C01] "the decode loop never stops early: every record of the read is handled"
+
+//@ func (w *inotify) Close() (err error)
+//@   requires Wf(w) && nolocks()
+//@   ensures closed(w.done)                                                               [C06 C05] "after Close the watcher is closed"
+//@   ensures old(closed(w.done)) ==> err == nil                                           [C05] "Close may be called any number of times"
+//@   ensures nolocks()                                                                    [C05 C07]
+//@   ensures token(closer) && err == nil ==> !fdOpen && forall(k, uint32, !has(K, k)) && fds == old(fds) - 1     [C13] "the first Close releases the descriptor and with it every kernel watch"
+//@   ensures !token(closer) ==> fds == old(fds)                                           [C13]
+
+//@ func newBackend(ev chan Event, errs chan error) (b backend, err error)
+//@   requires ev != nil && errs != nil && !closed(ev) && !closed(errs) && nolocks()
+//@   ensures err != nil ==> b == nil && fds == old(fds) && goroutines == old(goroutines)  [C13] "a failed NewWatcher leaks nothing"
+//@   ensures err == nil ==> b != nil && fresh(b) && fds == old(fds) + 1 && goroutines == old(goroutines) + 1     [C13 C14] "one descriptor, one goroutine, a fresh object"
+//@   ensures chCap(ev) == old(chCap(ev)) && chCap(errs) == old(chCap(errs)) && !closed(ev) && !closed(errs)      [C14] "the backend leaves the channels it is given as they are"
+//@   ensures nolocks()
+// (spec helpers over the raw read buffer, the same as in the assumed contract of Read)
+//@ def recMask(b []byte, o uint32) := le32(b, uint64(o) + 4)
+//@ def recWd(b []byte, o uint32) := le32(b, uint64(o))
